@@ -44,7 +44,7 @@
 //!   side) fails with `Dependent` (dialects differ: avoid).  ADD COLUMN gives existing rows the
 //!   declared DEFAULT, NULL if none; RENAME COLUMN rewrites keys, indexes, CHECKs and foreign keys.
 use super::expr::{lit_sql, total_cmp, Env, EvalErr, Expr};
-use super::query::{Database, Query, QueryResult, Table};
+use super::query::{Database, Query, QueryResult, Scope, Table};
 use super::{Schema, SchemaCol, Ty};
 use crate::val::{Row, V};
 use std::cmp::Ordering;
@@ -815,6 +815,22 @@ impl Stmt {
     }
 }
 
+/// static name check of DML expressions against the target table (errors even when no row is touched)
+fn check_exprs<'a>(def: &TableDef, db: &Database, exprs: impl Iterator<Item = &'a Expr>) -> Result<(), ModelErr> {
+    let schema = def.schema();
+    let scope = Scope { schema: &schema, outer: None };
+    for e in exprs {
+        e.check_names(&scope, db)?;
+    }
+    Ok(())
+}
+fn returning_exprs(r: &Option<Returning>) -> Vec<&Expr> {
+    match r {
+        Some(Returning::Exprs(v)) => v.iter().collect(),
+        _ => vec![],
+    }
+}
+
 impl State {
     fn eval_returning(&self, def: &TableDef, db: &Database, ret: &Option<Returning>, rows: &[Row]) -> Result<Option<Vec<Row>>, ModelErr> {
         let schema = def.schema();
@@ -857,6 +873,10 @@ impl State {
                     v
                 };
                 let empty = Schema::default();
+                check_exprs(&def, &db, returning_exprs(&ins.returning).into_iter())?;
+                for e in ins.rows.iter().flatten() {
+                    e.check_names(&Scope { schema: &empty, outer: None }, &db)?;
+                }
                 let mut generated = vec![];
                 let mut new_rows = vec![];
                 for r in &ins.rows {
@@ -896,6 +916,7 @@ impl State {
                 for (c, _) in &u.set {
                     targets.push(def.col_index(c).ok_or_else(|| ModelErr::NoSuchColumn(format!("{}.{c}", def.name)))?);
                 }
+                check_exprs(&def, &db, u.set.iter().map(|(_, e)| e).chain(u.where_.iter()).chain(returning_exprs(&u.returning)))?;
                 let mut new_rows = vec![];
                 let mut count = 0;
                 for k in 0..t.rows.len() {
@@ -963,6 +984,7 @@ impl State {
                         return Err(ModelErr::NoSuchColumn(format!("{}.{n}", def.name)));
                     }
                 }
+                check_exprs(&def, &self.database(), def.all_checks().iter())?;
                 self.tables.insert(def.name.clone(), RelTable { def, rows: vec![], auto_high: 0 });
                 Ok(Outcome::Done)
             }
@@ -1011,6 +1033,8 @@ impl State {
                     r.push(fill.clone());
                 }
                 t.def.columns.push(column);
+                let def = t.def.clone();
+                check_exprs(&def, &self.database(), def.all_checks().iter())?;
                 Ok(Outcome::Done)
             }
             Stmt::DropColumn { table, column } => {
@@ -1095,6 +1119,7 @@ impl State {
         let t = self.table_mut(table)?;
         let def = t.def.clone();
         let schema = def.schema();
+        check_exprs(&def, &db, where_.iter().chain(returning_exprs(ret)))?;
         let mut gone = vec![];
         let mut keep = vec![];
         for r in std::mem::take(&mut t.rows) {
